@@ -23,6 +23,7 @@ type View struct {
 	Rlimits  []string            `json:"rlimits"` // "type:hard:soft", in order
 	Res      map[string]string   `json:"res"`     // resource field -> value text (hugepages last-wins)
 	ResDup   bool                `json:"-"`
+	origArgs []string            // the runtime's command line (what a bare override marker restores)
 	Cgroups  string              `json:"cgroups"`
 	Oom      string              `json:"oom"`
 	MountDup []string            `json:"mount_dup,omitempty"`
@@ -41,6 +42,7 @@ func (v View) clone() View {
 	b, _ := json.Marshal(v)
 	_ = json.Unmarshal(b, &o)
 	o.ResDup = v.ResDup
+	o.origArgs = v.origArgs
 	return o
 }
 
@@ -237,6 +239,11 @@ func applyOpsToView(v *View, s Script) {
 			delete(v.Mounts, op.Key)
 		case "dev":
 			delete(v.Devices, op.Key)
+		case "args":
+			if op.Act == "del" {
+				// nothing set again: the command line is the runtime's once more
+				v.Args = append([]string{}, v.origArgs...)
+			}
 		}
 	}
 	for _, op := range s.Ops {
@@ -286,6 +293,7 @@ func Predict(c Case) *Expect {
 	var view View
 	if c.Kind == "create" {
 		view = viewOfContainer(origContainer(c, "x"))
+		view.origArgs = append([]string{}, view.Args...)
 	}
 	req := map[string]string{}
 	if c.Kind == "update" {
